@@ -1,35 +1,41 @@
 #!/bin/bash
 # MANIFEST.setup_cmd: build the framework from files on disk only (offline).
+# Builds every property's harness binary, runs its translator, and lake-builds its Props
+# modules and driver. Failures of properties that are not claimed in MANIFEST.json
+# (work in progress) are reported but do not fail the setup.
 set -u
+ROOT="$(cd "$(dirname "$0")" && pwd)"
 export GOFLAGS=-mod=mod GOPROXY=off GOSUMDB=off GOTOOLCHAIN=local
-cd /verif/harness || exit 1
-mkdir -p bin /verif/work /verif/lean/DepsDev/Gen
+cd "$ROOT/harness" || exit 1
+mkdir -p bin "$ROOT/work" "$ROOT/lean/DepsDev/Gen"
+claimed=$(python3 -c "
+import json,sys
+m=json.load(open('$ROOT/MANIFEST.json'))
+print(' '.join(c['property_id'].lower() for c in m['checks']))")
 rc=0
+rm -rf "$ROOT/work/setup-gen"; mkdir -p "$ROOT/work/setup-gen"
 for d in cmd/*/; do
   n=$(basename "$d")
-  go build -tags verif -o "bin/$n" "./cmd/$n" || { echo "setup: go build $n failed"; rc=1; continue; }
-  mkdir -p "/verif/work/setup-gen"
-  "bin/$n" gen -repo /repo -out /verif/work/setup-gen || { echo "setup: gen $n failed"; rc=1; }
+  must=0; for c in $claimed; do [ "$c" = "$n" ] && must=1; done
+  if go build -tags verif -o "bin/$n" "./cmd/$n" && "bin/$n" gen -repo /repo -out "$ROOT/work/setup-gen"; then :; else
+    echo "setup: harness $n failed (claimed=$must)"; [ $must = 1 ] && rc=1
+  fi
 done
-if [ -d /verif/work/setup-gen ]; then
-  for f in /verif/work/setup-gen/*.lean; do
-    [ -e "$f" ] || continue
-    t="/verif/lean/DepsDev/Gen/$(basename "$f")"
-    cmp -s "$f" "$t" || cp "$f" "$t"
-  done
-  rm -rf /verif/work/setup-gen
-fi
-cd /verif/lean || exit 1
-targets=$(python3 - <<'PY'
-import json,glob,re
-t=set()
-for f in sorted(glob.glob('/verif/props/C*.json')):
-    if f.endswith('.known.json'): continue
-    m=json.load(open(f))
-    for x in m.get('lean_modules',[]): t.add(x)
-for m in re.findall(r'name = "(driver_c\d+)"', open('/verif/lean/lakefile.toml').read()): t.add(m)
-print(' '.join(sorted(t)))
-PY
-)
-lake build $targets || rc=1
+for f in "$ROOT"/work/setup-gen/*.lean; do
+  [ -e "$f" ] || continue
+  t="$ROOT/lean/DepsDev/Gen/$(basename "$f")"
+  cmp -s "$f" "$t" || cp "$f" "$t"
+done
+rm -rf "$ROOT/work/setup-gen"
+cd "$ROOT/lean" || exit 1
+for c in $claimed; do
+  up=$(echo "$c" | tr a-z A-Z)
+  mods=$(python3 -c "
+import json
+m=json.load(open('$ROOT/props/$up.json'))
+t=list(m.get('lean_modules',[]))
+if m.get('model_driver',True): t.append('driver_$c')
+print(' '.join(t))")
+  lake build $mods || { echo "setup: lake build for $up failed"; rc=1; }
+done
 exit $rc
